@@ -586,6 +586,7 @@ def assemble(template_path, repo, stub=None, tolerant=False):
     lines = open(template_path).read().split('\n')
     out_lines = []
     blocks = []
+    changed_types = {}
     i = 0
     while i < len(lines):
         m = DIRECTIVE.match(lines[i])
@@ -606,6 +607,10 @@ def assemble(template_path, repo, stub=None, tolerant=False):
             nxt = i + 1
         mirror = '\n'.join(body)
         skey = (args.get('owner', '-'), args.get('name'))
+        own = args.get('owner', '-').split('<')[0].strip()
+        ct = next((t for t in changed_types if own == t or own.endswith(' for ' + t)), None)
+        if kind == 'FN' and ct and not (stub and skey in stub):
+            stub = dict(stub or {}); stub[skey] = 'the definition of %s differs from the mirror (%s)' % (ct, changed_types[ct][:100])
         if kind == 'FN' and stub and skey in stub:
             text = stub_from_mirror(mirror)
             info = dict(file=args['file'], owner=args.get('owner', '-'), name=args['name'], status='STUBBED (assumed contract: ' + stub[skey][:160] + ')', rewrites=[],
@@ -619,6 +624,17 @@ def assemble(template_path, repo, stub=None, tolerant=False):
                             source_line=0, source_tokens=0, inserted_tokens=0, stubbed='extractor: ' + str(e))
         elif kind == 'FN': text, info = process_fn(repo, args, mirror)
         elif kind == 'SIG': text, info = process_sig(repo, args, mirror)
+        elif kind in ('STRUCT', 'ENUM') and tolerant:
+            # a changed type definition: keep the mirror's definition for the rest of the unit and turn every function of that
+            # type (inherent and trait impls) into an assumed contract: the properties they serve are undecided in this run
+            try:
+                text, info = process_def(repo, 'struct' if kind == 'STRUCT' else 'enum', args, mirror)
+            except ExtractError as e:
+                if 'changed' not in str(e) or not args.get('degrade'): raise
+                text = mirror
+                info = dict(file=args['file'], owner='-', name=args['name'], status='MIRROR KEPT (the definition in the source differs: its functions are stubbed)', rewrites=[],
+                            source_line=0, source_tokens=0, inserted_tokens=0)
+                changed_types[args['name']] = str(e)
         elif kind == 'STRUCT': text, info = process_def(repo, 'struct', args, mirror)
         elif kind == 'ENUM': text, info = process_def(repo, 'enum', args, mirror)
         elif kind == 'STATIC': text, info = process_static(repo, args)
